@@ -20,15 +20,27 @@ def hl : Nat := 13
 
 /-- stripping is only sound if a leading `(` and a trailing `)` are the two ends of one
     parenthesised expression -/
+def isOpen : Option Tok → Bool
+  | some .lp => true
+  | some (.hole _) => true
+  | _ => false
+
+def isClose : Option Tok → Bool
+  | some .rp => true
+  | some (.hole _) => true
+  | _ => false
+
+def isParen : Ast → Bool
+  | .paren _ => true
+  | _ => false
+
+/-- if the text can start with `(` and end with `)` (a hole can be anything), the two must be
+    the two ends of one parenthesised expression -/
 def stripOk (toks : List Tok) (a : Ast) : Bool :=
-  if toks.head? = some Tok.lp ∧ toks.getLast? = some Tok.rp then
-    match a with
-    | .paren _ => true
-    | _ => false
-  else true
+  !(isOpen toks.head? && isClose toks.getLast?) || isParen a
 
 def safeAst (f : Fmt) (arity : Nat) (toks : List Tok) (a : Ast) : Bool :=
-  flat a == toks && ok f hl a && decide (hl ≤ lvl f hl a) && holesIn arity a && stripOk toks a
+  decide (flat a = toks) && ok f hl a && decide (hl ≤ lvl f hl a) && holesIn arity a && stripOk toks a
 
 def safeTpl (f : Fmt) (sym : FnSym) : Bool :=
   let toks := lexT f sym.arity (sym.tplOf f)
@@ -51,17 +63,26 @@ def noPP : List Ch → Bool
 /-- text that can be inserted anywhere without creating or hiding a marker -/
 def clean (s : List Ch) : Bool := noPP s && s.getLast? != some 37
 
-def regularGo : Bool → List Piece → Bool
+/-- literal pieces are clean and non-empty, holes are 1..n, no two holes are adjacent, and the
+    text after a hole starts neither with `%` nor with a digit -/
+def regularGo (n : Nat) : Bool → List Piece → Bool
   | _, [] => true
   | afterHole, .lit s :: ps =>
-      clean s && !s.isEmpty &&
-      (!afterHole || match s with
-                     | c :: _ => c != 37 && !isDigit c
-                     | [] => false) && regularGo false ps
-  | afterHole, .hole _ :: ps => !afterHole && regularGo true ps
+      clean s &&
+      (match s with
+       | c :: _ => !afterHole || (c != 37 && !isDigit c)
+       | [] => false) && regularGo n false ps
+  | afterHole, .hole i :: ps => !afterHole && decide (1 ≤ i) && decide (i ≤ n) && regularGo n true ps
+
+/-- the text the pieces stand for -/
+def joinPieces : List Piece → List Ch
+  | [] => []
+  | .lit s :: ps => s ++ joinPieces ps
+  | .hole i :: ps => marker i ++ joinPieces ps
 
 def regularTpl (f : Fmt) (sym : FnSym) : Bool :=
-  regularGo false (splitMarkers sym.arity (sym.tplOf f))
+  let ps := splitMarkers sym.arity (sym.tplOf f)
+  decide (joinPieces ps = sym.tplOf f) && decide (sym.arity ≤ 9) && regularGo sym.arity false ps
 
 /-! ### token boundaries around holes (NoGlue) -/
 
@@ -128,9 +149,32 @@ def termSyn (f : Fmt) (fl : List Ch) (s : List Ch) : Bool :=
    | [] => false) &&
   endOk (run f .idle (s.map LCh.c)).2 &&
   (match parse f (lexS f s) with
-   | some a => flat a == lexS f s && ok f hl a && decide (hl ≤ lvl f hl a) && holesIn 0 a &&
+   | some a => decide (flat a = lexS f s) && ok f hl a && decide (hl ≤ lvl f hl a) && holesIn 0 a &&
                stripOk (lexS f s) a
    | none => false)
+
+mutual
+  /-- symbol indices are in the table and every function node has `arity` arguments -/
+  def wfT (fns : List FnSym) : Tree → Bool
+    | .tm _ _ _ => true
+    | .fn s kids =>
+        match fns[s]? with
+        | none => false
+        | some sym => decide (kids.length = sym.arity) && wfF fns kids
+  def wfF (fns : List FnSym) : Forest → Bool
+    | .nil => true
+    | .cons t r => wfT fns t && wfF fns r
+end
+
+mutual
+  /-- every terminal's printed text satisfies `p` -/
+  def termsT (p : List Ch → Bool) (tms : List TmSym) (f : Fmt) : Tree → Bool
+    | .tm k text bits => p (termStr tms f k text bits)
+    | .fn _ kids => termsF p tms f kids
+  def termsF (p : List Ch → Bool) (tms : List TmSym) (f : Fmt) : Forest → Bool
+    | .nil => true
+    | .cons t r => termsT p tms f t && termsF p tms f r
+end
 
 def termOk (f : Fmt) (fl : List Ch) (s : List Ch) : Bool := clean s && termSyn f fl s
 
